@@ -474,3 +474,12 @@ func SpecRoot(start string) string {
 //@ contract runAssemble
 //@   tags C08 C16
 //@   results r
+
+// ---- C17: no reader that may return part of its input without an error is used by the
+// line-oriented commands (the scanners are covered by the scan-complete obligations)
+//@ directive[C17] no-effect cmd.createGenerateCommand partialread
+//@ directive[C17] no-effect cmd.createUpdateCommand partialread
+//@ directive[C17] no-effect cmd.createCompareCommand partialread
+//@ directive[C17] no-effect cmd.createFormatCommand partialread
+//@ directive[C17] no-effect cmd.createRenumberTestsCommand partialread
+//@ directive[C17] no-effect cmd.createChoreUpdateCopyrightCommand partialread
